@@ -114,7 +114,9 @@ def fault_sweeps(a, lo, hi, fuel):
             continue
         steps = base_res["steps"]  # echoes concretised: the text no longer depends on the fault
         lengths = {r["id"]: r["clock"] - r["clock0"] for r in base_res["warm"]["records"] if r["status"] == "ok"}
-        cands = [s["id"] for s in steps if s["op"] in ("and", "or", "reparse", "parse") and lengths.get(s["id"], 0) >= 8
+        if base_res["warm"]["clock"] > 40_000:
+            continue  # every position re-runs the whole history: keep sweeps to histories that are cheap to repeat
+        cands = [s["id"] for s in steps if s["op"] in ("and", "or", "reparse", "parse") and 8 <= lengths.get(s["id"], 0) <= 6000
                  and s["id"] < len(steps) - 1]
         if not cands:
             continue
@@ -128,7 +130,7 @@ def fault_sweeps(a, lo, hi, fuel):
         retry = rng.random() < 0.7
         for target in targets:
             length = lengths[target]
-            cap = 150 if target == targets[0] else 60
+            cap = 120 if target == targets[0] else 50
             positions = list(range(1, length + 1)) if length <= cap else sorted({1 + int(i * (length - 1) / (cap - 1)) for i in range(cap)})
             out["target_ops"][steps[target]["op"]] = out["target_ops"].get(steps[target]["op"], 0) + 1
             out["target_lengths"].append(length)
@@ -284,7 +286,7 @@ def main():
         "clock_warm": 0, "clock_cold": 0, "cold_forks": 0, "cold_cached": 0,
         "shim_totals": {}, "rare": {}, "signatures": [], "nontrivial": [], "populations": [],
         "digests": [], "samples": [], "violations": [], "harness": [], "truncated": False,
-        "flavours": {}, "schedules": {}, "functions_entered": {}, "fault_sites": {},
+        "flavours": {}, "schedules": {}, "wall_by_kind": {}, "functions_entered": {}, "fault_sites": {},
     }
     sigs = set()
     nontrivial = set()
@@ -301,8 +303,13 @@ def main():
         cfg = prog["config"]
         if group != cold_group:
             cold_group, cold_cache = group, {}  # cold references are shared by the schedules of one script set
+        t_run = time.monotonic()
         res = sh.evaluate_program(steps, envs, fuel=fuel, shims=cfg["shims"], skip_trivial=True, max_probes=cfg.get("max_probes", 40),
                                   cold_cache=cold_cache)
+        kind_name = "marathon" if cfg.get("marathon") else "saturation" if cfg.get("saturation") else "heavy" if cfg.get("heavy") else "plain"
+        kt = out["wall_by_kind"].setdefault(kind_name, {"runs": 0, "wall_s": 0.0})
+        kt["runs"] += 1
+        kt["wall_s"] = round(kt["wall_s"] + time.monotonic() - t_run, 3)
         if res["harness"]:
             out["harness"].append({"run": run, "what": res["harness"]})
             continue
